@@ -48,6 +48,10 @@ def glue_trigger(c):
     t = "%s,%s" % (c["style"], "+".join(ms))
     if c.get("prior", "none") != "none":
         t += ",after=" + c["prior"]
+    if c.get("nosrc"):
+        t += ",nosrc"
+    if c.get("hand", -5) != -5:
+        t += ",handover=" + c["hend"]
     if c.get("retr", ["call"]) != ["call"]:
         t += ",retr=%s%s" % ("+".join(c["retr"]), "@task" if c["outer"] else "@top")
     return t
@@ -130,7 +134,8 @@ def main():
         # ------------------------------------------------------------------ (a) gluing / format_asynq_stack
         gcases = []
         gstates = gtrans = 0
-        runs = [{"MAXD": "7" if quick else "8", "PRIORD": "4" if quick else "5", "RETRD": "4" if quick else "6"}]
+        runs = [{"MAXD": "7" if quick else "8", "PRIORD": "4" if quick else "5", "RETRD": "4" if quick else "6",
+                 "NOSRCD": "4" if quick else "6", "HANDD": "5" if quick else "7"}]
         if not quick:
             runs += [{"DEEP": "50"}, {"DEEP": "200"}]
         for env in runs:
@@ -162,6 +167,8 @@ def main():
                          "max_depth": max(c["d"] for c in gcases),
                          "chains_after_an_earlier_computation": sum(1 for c in gcases if c.get("prior", "none") != "none"),
                          "chains_retrieved_several_times": sum(1 for c in gcases if c.get("retr", ["call"]) != ["call"]),
+                         "chains_with_generated_functions": sum(1 for c in gcases if c.get("nosrc")),
+                         "chains_with_a_hand_over": sum(1 for c in gcases if c.get("hand", -5) != -5),
                          "caught_retrievals": sum(len(c.get("sights", [])) for c in gcases),
                          "earlier_computation_kinds": sorted({c.get("prior", "none") for c in gcases}),
                          "chains_reaching_caller_with_error": sum(1 for c in gcases if c["outcome"][0] == "err"),
